@@ -1,7 +1,7 @@
 """C14: NRPS/PKS module construction (detection/nrps_pks_domains/module_identification.py)."""
 # pylint: disable=no-self-argument,no-method-argument,missing-function-docstring
 from pyvc.dsl import (contract, spec, Int, Bool, Real, Str, Opt, OneOf, Rec, Ref, External, ListOf, SeqOf, SetOf,
-                      DictOf, Const, Loop, implies, iff, forall, exists)
+                      DictOf, Const, ClassOf, Loop, implies, iff, forall, exists)
 
 FILE = "antismash/detection/nrps_pks_domains/module_identification.py"
 
@@ -150,4 +150,61 @@ class ModuleAddToEmptyNeverFails:
     ensures = {
         "accepted-unless-ignored": lambda self, component:
             len(self._components) == (0 if component.is_ignored() else 1),
+    }
+
+
+@contract(f"{FILE}::classify", props=["C14"])
+class Classify:
+    """Every profile name of the tables has exactly one classification (the tables are pairwise disjoint), and a
+    name in none of them is refused."""
+    params = {"profile_name": Str}
+    raises = {"ValueError": lambda profile_name: not any(profile_name in names for names in CLASSIFICATIONS.values())}
+    ensures = {
+        "the-one-table-holding-the-name": lambda profile_name, result:
+            all((profile_name in names) == (key == result) for key, names in CLASSIFICATIONS.items()),
+    }
+    returns = Str
+
+
+def _saved_component(component):
+    return component.to_json()
+
+
+@contract(f"{FILE}::Component.from_json", props=["C14", "C11"])
+class ComponentJsonRoundTrip:
+    """A component rebuilt from its saved form is the same component: same domain hit (and sub-hit), same gene,
+    same classification."""
+    params = {"component": Rec("Component", label="ComponentSaved",
+                               _domain=Rec("HMMResult", label="DomainSaved", _hit_id=Str, _query_start=Int, _query_end=Int,
+                                           _evalue=Real, _bitscore=Real,
+                                           _internal_hits=ListOf(Rec("HMMResult", label="SubtypeSaved", _hit_id=Str,
+                                                                     _query_start=Int, _query_end=Int, _evalue=Real,
+                                                                     _bitscore=Real, _internal_hits=Const([])), 0, 1)),
+                               classification=Str, locus=Str),
+              "cls": ClassOf("Component")}
+    ghost_params = ["component"]
+    derived = {"data": _saved_component}
+
+    def requires(component):
+        domain = component._domain
+        return (0 <= domain._query_start and domain._query_start < domain._query_end and component.locus != ""
+                and all(0 <= sub._query_start and sub._query_start < sub._query_end
+                        and sub._query_start < domain._query_end and domain._query_start < sub._query_end
+                        for sub in domain._internal_hits)
+                # a component that exists was classified when it was built
+                and any(domain._hit_id in names for names in CLASSIFICATIONS.values())
+                and all((domain._hit_id in names) == (key == component.classification)
+                        for key, names in CLASSIFICATIONS.items()))
+
+    ensures = {
+        "rebuilt-component-equals-the-saved-one": lambda component, result:
+            result.locus == component.locus and result.classification == component.classification
+            and result._domain._hit_id == component._domain._hit_id
+            and result._domain._query_start == component._domain._query_start
+            and result._domain._query_end == component._domain._query_end
+            and result._domain._evalue == component._domain._evalue
+            and result._domain._bitscore == component._domain._bitscore
+            and len(result._domain._internal_hits) == len(component._domain._internal_hits)
+            and all(result._domain._internal_hits[k]._hit_id == component._domain._internal_hits[k]._hit_id
+                    for k in range(len(component._domain._internal_hits))),
     }
